@@ -1,2 +1,368 @@
-(* C19 — stub *)
-From Zap Require Import Base.Wire C19.Model.
+(* C19 — the wire-level link: on every well-formed case the observation computed by
+   the model of the code is accepted by the property's oracle. *)
+From Coq Require Import List ZArith Bool Lia Arith.
+From Coq.Strings Require Import Byte.
+Import ListNotations.
+From Zap Require Import Base.Wire C19.Model C19.Registry C19.Open.
+
+(* ------------------------------------------------------------------ generalities *)
+Lemma sx_eqb_refl : forall s, sx_eqb s s = true.
+Proof.
+  fix IH 1. intros [z|b|l]; cbn [sx_eqb].
+  - apply Z.eqb_refl.
+  - apply bytes_eqb_refl.
+  - induction l as [|a t IHt]; [reflexivity|]. rewrite (IH a). cbn [andb]. exact IHt.
+Qed.
+
+Lemma sx_mem_in x l : In x l -> sx_mem x l = true.
+Proof.
+  induction l as [|y t IH]; cbn [In sx_mem]; [tauto|]. intros [->|H].
+  - now rewrite sx_eqb_refl.
+  - rewrite (IH H). apply orb_true_r.
+Qed.
+Lemma all_in_incl xs ys : incl xs ys -> all_in xs ys = true.
+Proof.
+  unfold all_in. intros H. apply forallb_forall. intros x Hx. apply sx_mem_in, H, Hx.
+Qed.
+
+Lemma number_pos' {A} (l : list A) k : Forall (fun p : A * nat => snd p <> 0) (number (S k) l).
+Proof. revert k. induction l as [|a t IH]; intros k; cbn [number]; constructor; [cbn; lia|apply IH]. Qed.
+Lemma dec_names_pos s : ids_pos (dec_names s).
+Proof. unfold dec_names, ids_pos. apply number_pos'. Qed.
+
+Lemma Inv_case names : Inv (reg_all sreg0 names) names.
+Proof. apply (Inv_reg_all names sreg0 [] Inv0). Qed.
+Lemma EInv_case encs : EInv (ereg_all ereg0 encs) encs.
+Proof. apply (EInv_reg_all encs ereg0 [] EInv0). Qed.
+
+(* ------------------------------------------------------------------ paths of a case *)
+Section Paths.
+  Variable r : sreg.
+  Variable names : list (bytes * nat).
+  Hypothesis HI : Inv r names.
+  Hypothesis Hpos : ids_pos names.
+
+  Lemma kinds_spec ps : forallb wf_purl ps = true -> path_kinds r ps = spec_kinds names ps.
+  Proof.
+    unfold path_kinds, spec_kinds. induction ps as [|u t IH]; cbn [forallb map concat]; [reflexivity|].
+    intros H. apply andb_true_iff in H as [Hu Ht]. now rewrite (new_sink_spec r names u HI Hpos Hu), (IH Ht).
+  Qed.
+  Lemma nfail_spec ps : forallb wf_purl ps = true -> length (filter (path_fails r) ps) = spec_nfail names ps.
+  Proof.
+    unfold path_fails, spec_nfail. induction ps as [|u t IH]; cbn [forallb filter]; [reflexivity|].
+    intros H. apply andb_true_iff in H as [Hu Ht]. rewrite (new_sink_spec r names u HI Hpos Hu).
+    destruct (snd (spec_path names u)); cbn [length]; now rewrite (IH Ht).
+  Qed.
+  Lemma calls_spec ps : forallb wf_purl ps = true ->
+    concat (map (fun u => fst (new_sink r u)) ps) = spec_calls names ps.
+  Proof.
+    unfold spec_calls. induction ps as [|u t IH]; cbn [forallb map concat]; [reflexivity|].
+    intros H. apply andb_true_iff in H as [Hu Ht]. now rewrite (new_sink_spec r names u HI Hpos Hu), (IH Ht).
+  Qed.
+End Paths.
+
+(* ------------------------------------------------------------------ statistics *)
+Lemma closable_std s : closable s = negb (is_std (skd s)).
+Proof. unfold closable, is_std. destruct (skd s); reflexivity. Qed.
+
+Lemma stats_uniform E W C l :
+  (forall s, In s l -> closable s = true ->
+     count (is_write (sid s)) E = W /\ count (is_close (sid s)) E = C) ->
+  stats E l = spec_stats (map skd l) W C.
+Proof.
+  unfold stats, spec_stats. intros H. f_equal.
+  induction l as [|s t IH]; cbn [map filter]; [reflexivity|].
+  rewrite <- closable_std. destruct (closable s) eqn:Ec; cbn [map].
+  - unfold stat_of at 1. destruct (H s (or_introl eq_refl) Ec) as (-> & ->). f_equal.
+    apply IH. intros s' Hin. apply H. now right.
+  - apply IH. intros s' Hin. apply H. now right.
+Qed.
+
+Lemma std_uniform E W l :
+  (forall s, In s l -> closable s = false ->
+     count (is_write (sid s)) E = W /\ count (is_close (sid s)) E = 0) ->
+  std_pair E l = spec_std (map skd l) W.
+Proof.
+  unfold std_pair, spec_std. intros H.
+  assert (G : sum_count is_write E (filter (fun s => negb (closable s)) l) = W * length (filter is_std (map skd l))
+              /\ sum_count is_close E (filter (fun s => negb (closable s)) l) = 0).
+  { induction l as [|s t IH]; cbn [map filter sum_count fold_right length]; [split; lia|].
+    destruct IH as (I1 & I2); [intros s' Hin; apply H; now right|].
+    rewrite closable_std, negb_involutive. destruct (is_std (skd s)) eqn:Es; [|split; assumption].
+    assert (Ec : closable s = false) by (rewrite closable_std, Es; reflexivity).
+    destruct (H s (or_introl eq_refl) Ec) as (Hw & Hc).
+    cbn [sum_count fold_right length]. fold (sum_count is_write E (filter (fun s => negb (closable s)) t)).
+    fold (sum_count is_close E (filter (fun s => negb (closable s)) t)).
+    rewrite Hw, Hc, I1, I2. split; lia. }
+  destruct G as (-> & ->). reflexivity.
+Qed.
+
+Lemma undone_stats kinds : forallb undone (sx_l (spec_stats kinds 0 1)) = true.
+Proof.
+  unfold spec_stats. cbn [sx_l]. induction kinds as [|k t IH]; cbn [filter map forallb]; [reflexivity|].
+  destruct (is_std k); cbn [negb map forallb]; [exact IH|]. rewrite IH, andb_true_r.
+  destruct k; reflexivity.
+Qed.
+Lemma spec_std_0 kinds : spec_std kinds 0 = std_untouched.
+Proof. reflexivity. Qed.
+
+(* ------------------------------------------------------------------ kind 2 *)
+Lemma wire_redirect i : spec_redirect i (model_redirect i) = true.
+Proof.
+  unfold spec_redirect, model_redirect, model_redirect_with, redirect.
+  set (l := if Z.eqb (sx_z (sx_nth i 1)) 0 then 0%Z else sx_z (sx_nth i 4)).
+  rewrite level_to_func_spec. destruct (named_level l); cbn [l_writer l_flags l_prefix restore fst snd lw_code of_bool];
+    apply sx_eqb_refl.
+Qed.
+
+(* ------------------------------------------------------------------ kind 0 *)
+Lemma andb_intro (a b : bool) : a = true -> b = true -> a && b = true.
+Proof. intros -> ->. reflexivity. Qed.
+
+Lemma wire_open i : forallb wf_purl (map dec_purl (sx_l (sx_nth i 2))) = true -> spec_open i (model_open i) = true.
+Proof.
+  intros Hwf. unfold spec_open, model_open.
+  set (names := dec_names (sx_nth i 1)) in *. set (ps := map dec_purl (sx_l (sx_nth i 2))) in *.
+  set (nw := sx_n (sx_nth i 3)). set (r := reg_all sreg0 names).
+  pose proof (Inv_case names) as HI. fold r in HI. pose proof (dec_names_pos (sx_nth i 1)) as Hpos. fold names in Hpos.
+  pose proof (open_atomic r ps 0) as A. cbn zeta in A. destruct A as (Hk & Hnd & A).
+  assert (Hcalls : o_calls (open r ps 0) = spec_calls names ps).
+  { unfold open. pose proof (open_loop_spec r ps 0) as S. destruct (open_loop r ps 0) as [[ws ne] cl].
+    destruct S as (_ & _ & _ & ->). destruct (Nat.eqb ne 0); cbn [o_calls]; apply calls_spec; assumption. }
+  rewrite (kinds_spec r names HI Hpos ps Hwf) in Hk.
+  destruct (o_writers (open r ps 0)) as [ws|] eqn:Ew.
+  - destruct A as (_ & _ & Hs & He & Hn & Hwr & Hcl).
+    assert (Hnf : spec_nfail names ps = 0).
+    { rewrite <- (nfail_spec r names HI Hpos ps Hwf). unfold open in Hn, Ew.
+      pose proof (open_loop_spec r ps 0) as S. destruct (open_loop r ps 0) as [[ws' ne] cl].
+      destruct S as (_ & _ & <- & _). destruct (Nat.eqb ne 0) eqn:E; [apply Nat.eqb_eq in E; exact E|discriminate]. }
+    rewrite Hnf. cbn [Nat.eqb]. rewrite Hs in *. rewrite He, Hn, Hcalls. cbn [app sx_nth sx_l nth of_nat Z.of_nat].
+    rewrite <- Hk.
+    assert (S1 : stats (writes nw ws) ws = spec_stats (map skd ws) nw 0).
+    { apply stats_uniform. intros s Hin _. split; [apply Hwr, Hin|apply count_close_writes]. }
+    assert (S2 : stats (writes nw ws ++ close_all ws) ws = spec_stats (map skd ws) nw 1).
+    { apply stats_uniform. intros s Hin Hc.
+      rewrite !count_app, count_write_close_all, count_close_writes, (Hwr nw s Hin), (Hcl s Hin), Hc. split; lia. }
+    assert (S3 : std_pair (writes nw ws ++ close_all ws) ws = spec_std (map skd ws) nw).
+    { apply std_uniform. intros s Hin Hc.
+      rewrite !count_app, count_write_close_all, count_close_writes, (Hwr nw s Hin), (Hcl s Hin), Hc. split; lia. }
+    rewrite S1, S2, S3, !sx_eqb_refl. reflexivity.
+  - destruct A as (_ & Hn & Hn0 & Hcl & Hwr).
+    rewrite (nfail_spec r names HI Hpos ps Hwf) in Hn. rewrite <- Hn.
+    destruct (Nat.eqb (o_nerr (open r ps 0)) 0) eqn:E; [apply Nat.eqb_eq in E; congruence|].
+    rewrite Hcalls. cbn [sx_nth sx_l nth].
+    set (o := open r ps 0) in *.
+    assert (S2 : stats (o_evs o) (o_sinks o) = spec_stats (map skd (o_sinks o)) 0 1).
+    { apply stats_uniform. intros s Hin Hc. split; [apply Hwr|]. rewrite (Hcl s Hin), Hc. reflexivity. }
+    assert (S3 : std_pair (o_evs o) (o_sinks o) = spec_std (map skd (o_sinks o)) 0).
+    { apply std_uniform. intros s Hin Hc. split; [apply Hwr|]. rewrite (Hcl s Hin), Hc. reflexivity. }
+    rewrite S2, S3, undone_stats, spec_std_0, !sx_eqb_refl, all_in_incl by apply incl_refl. reflexivity.
+Qed.
+
+(* ------------------------------------------------------------------ kind 1 *)
+Definition spec_build' (names : list (bytes * nat)) (encs : list (bytes * (nat * bool))) (cfg : bcfg) (nw : nat) (o : sx) : bool :=
+  let probs := spec_problems encs names cfg in
+  let calls := map enc_call (spec_calls names (c_out cfg) ++ spec_calls names (c_errp cfg)) in
+  let kinds := spec_kinds names (c_out cfg) ++ spec_kinds names (c_errp cfg) in
+  if is_nil probs then
+    sx_eqb (sx_nth o 0) (SZ 0) && sx_eqb (sx_nth o 2) (SL calls)
+    && sx_eqb (sx_nth o 3) (spec_stats kinds nw 0)
+    && sx_eqb (sx_nth o 4) (spec_stats kinds nw 0)
+    && sx_eqb (sx_nth o 5) (spec_std kinds nw)
+  else
+    existsb (Z.eqb (sx_z (sx_nth o 0))) probs && all_in (sx_l (sx_nth o 2)) calls
+    && sx_eqb (sx_nth o 3) (SL []) && forallb undone (sx_l (sx_nth o 4))
+    && sx_eqb (sx_nth o 5) std_untouched.
+Lemma spec_build_unfold i o :
+  spec_build i o = spec_build' (dec_names (sx_nth i 1)) (dec_encs (sx_nth i 2)) (dec_cfg i) (sx_n (sx_nth i 9)) o.
+Proof. reflexivity. Qed.
+
+Lemma spec_build_err names encs cfg nw code ctor calls sinks E :
+  In code (spec_problems encs names cfg) ->
+  incl calls (spec_calls names (c_out cfg) ++ spec_calls names (c_errp cfg)) ->
+  all_undone sinks E ->
+  spec_build' names encs cfg nw
+    (SL [SZ code; ctor; SL (map enc_call calls); SL []; stats E sinks; std_pair E sinks]) = true.
+Proof.
+  intros Hin Hincl (Hcl & Hwr). unfold spec_build'.
+  destruct (spec_problems encs names cfg) as [|p0 pt] eqn:Ep; [destruct Hin|]. cbn [is_nil sx_nth sx_l nth sx_z].
+  assert (S2 : stats E sinks = spec_stats (map skd sinks) 0 1).
+  { apply stats_uniform. intros s Hs Hc. split; [apply Hwr|]. rewrite (Hcl s Hs), Hc. reflexivity. }
+  assert (S3 : std_pair E sinks = spec_std (map skd sinks) 0).
+  { apply std_uniform. intros s Hs Hc. split; [apply Hwr|]. rewrite (Hcl s Hs), Hc. reflexivity. }
+  rewrite S2, S3, undone_stats, spec_std_0, !sx_eqb_refl.
+  rewrite all_in_incl by (apply incl_map; exact Hincl).
+  assert (X : existsb (Z.eqb code) (p0 :: pt) = true).
+  { apply existsb_exists. exists code. split; [exact Hin|apply Z.eqb_refl]. }
+  rewrite X. reflexivity.
+Qed.
+
+Lemma open_sinks_calls_err r cfg names :
+  Inv r names -> ids_pos names ->
+  forallb wf_purl (c_out cfg) = true -> forallb wf_purl (c_errp cfg) = true ->
+  r_ws (open_sinks r cfg) = None ->
+  incl (r_calls (open_sinks r cfg)) (spec_calls names (c_out cfg) ++ spec_calls names (c_errp cfg))
+  /\ spec_nfail names (c_out cfg) + spec_nfail names (c_errp cfg) <> 0
+  /\ all_undone (r_sinks (open_sinks r cfg)) (r_evs (open_sinks r cfg)).
+Proof.
+  intros HI Hpos W1 W2 Hn. pose proof (open_sinks_spec r cfg) as S. cbn zeta in S. rewrite Hn in S.
+  destruct S as (_ & Hu & Hf & (pre & -> & Hincl)).
+  rewrite (calls_spec r names HI Hpos _ W1), (calls_spec r names HI Hpos _ W2) in Hincl.
+  rewrite (nfail_spec r names HI Hpos _ W1), (nfail_spec r names HI Hpos _ W2) in Hf. auto.
+Qed.
+
+Lemma wire_build i :
+  forallb wf_purl (map dec_purl (sx_l (sx_nth i 7))) = true ->
+  forallb wf_purl (map dec_purl (sx_l (sx_nth i 8))) = true ->
+  spec_build i (model_build i) = true.
+Proof.
+  intros W1 W2. rewrite spec_build_unfold. unfold model_build, model_build_with.
+  set (names := dec_names (sx_nth i 1)). set (encs := dec_encs (sx_nth i 2)). set (cfg := dec_cfg i).
+  set (nw := sx_n (sx_nth i 9)). set (er := ereg_all ereg0 encs). set (r := reg_all sreg0 names).
+  pose proof (Inv_case names) as HI. fold r in HI. pose proof (dec_names_pos (sx_nth i 1)) as Hpos. fold names in Hpos.
+  pose proof (EInv_case encs) as HE. fold er in HE.
+  change (map dec_purl (sx_l (sx_nth i 7))) with (c_out cfg) in W1.
+  change (map dec_purl (sx_l (sx_nth i 8))) with (c_errp cfg) in W2.
+  assert (Hnil : all_undone [] []) by apply all_undone_nil.
+  assert (Hi0 : incl (@nil call) (spec_calls names (c_out cfg) ++ spec_calls names (c_errp cfg))) by (intros x []).
+  unfold build, new_encoder.
+  destruct (c_timekey cfg && negb (c_enctime cfg)) eqn:Et.
+  { cbn [enc_cls b_cls b_ctor b_calls b_ws b_evs b_sinks app map cls_code].
+    apply (spec_build_err names encs cfg nw 1%Z _ [] [] []); try assumption.
+    unfold spec_problems. rewrite Et. now left. }
+  destruct (is_nil (c_encoding cfg)) eqn:En.
+  { cbn [enc_cls b_cls b_ctor b_calls b_ws b_evs b_sinks app map cls_code].
+    apply (spec_build_err names encs cfg nw 2%Z _ [] [] []); try assumption.
+    unfold spec_problems. rewrite Et, En. now left. }
+  rewrite (HE (c_encoding cfg)). destruct (spec_enc encs (c_encoding cfg)) as [[cid ok]|] eqn:Ese.
+  2:{ cbn [enc_cls b_cls b_ctor b_calls b_ws b_evs b_sinks app map cls_code].
+      apply (spec_build_err names encs cfg nw 3%Z _ [] [] []); try assumption.
+      unfold spec_problems. rewrite Et, En, Ese. now left. }
+  destruct ok.
+  2:{ cbn [enc_cls b_cls b_ctor b_calls b_ws b_evs b_sinks app map cls_code].
+      apply (spec_build_err names encs cfg nw 4%Z _ [] [] []); try assumption.
+      unfold spec_problems. rewrite Et, En, Ese. now left. }
+  cbn [enc_cls]. destruct (c_level cfg) eqn:El; cbn [negb].
+  2:{ cbn [b_cls b_ctor b_calls b_ws b_evs b_sinks app map cls_code].
+      apply (spec_build_err names encs cfg nw 6%Z _ [] [] []); try assumption.
+      unfold spec_problems. rewrite Et, En, Ese, El. cbn [app].
+      destruct (Nat.eqb _ 0); cbn [app In]; auto. }
+  destruct (r_ws (open_sinks r cfg)) as [[ws1 ws2]|] eqn:Ew.
+  2:{ cbn [b_cls b_ctor b_calls b_ws b_evs b_sinks app map cls_code].
+      destruct (open_sinks_calls_err r cfg names HI Hpos W1 W2 Ew) as (Hincl & Hf & Hu).
+      apply (spec_build_err names encs cfg nw 5%Z); try assumption.
+      unfold spec_problems. rewrite Et, En, Ese, El. cbn [app].
+      destruct (Nat.eqb _ 0) eqn:E0; [apply Nat.eqb_eq in E0; congruence|]. cbn [app In]. auto. }
+  (* success *)
+  cbn [b_cls b_ctor b_calls b_ws b_evs b_sinks app map cls_code].
+  pose proof (open_sinks_spec r cfg) as S. cbn zeta in S. rewrite Ew in S.
+  destruct S as (Hnd & Hs & He & Hk1 & Hk2 & L1 & L2 & I1 & I2 & F1 & F2 & Hc).
+  rewrite (kinds_spec r names HI Hpos _ W1) in Hk1. rewrite (kinds_spec r names HI Hpos _ W2) in Hk2.
+  rewrite (nfail_spec r names HI Hpos _ W1) in F1. rewrite (nfail_spec r names HI Hpos _ W2) in F2.
+  rewrite (calls_spec r names HI Hpos _ W1), (calls_spec r names HI Hpos _ W2) in Hc.
+  unfold spec_build', spec_problems. rewrite Et, En, Ese, El, F1, F2. cbn [Nat.add Nat.eqb app is_nil].
+  rewrite Hs, He, Hc. cbn [app sx_nth sx_l nth].
+  assert (Hnd1 : NoDup (ids ws1)) by (rewrite I1; apply seq_NoDup).
+  assert (Hnd2 : NoDup (ids ws2)) by (rewrite I2; apply seq_NoDup).
+  assert (Hcount : forall s, In s (ws1 ++ ws2) ->
+            count (is_write (sid s)) (writes nw ws1 ++ writes nw ws2) = nw
+            /\ count (is_close (sid s)) (writes nw ws1 ++ writes nw ws2) = 0).
+  { intros s Hin. rewrite !count_app, !count_write_writes, !count_close_writes. split; [|reflexivity].
+    destruct (ids_disjoint ws1 ws2 s I1 I2) as (D1 & D2). apply in_app_or in Hin. destruct Hin as [Hin|Hin].
+    - rewrite (occ_in s ws1 Hnd1 Hin), (occ_notin _ _ (D1 Hin)). lia.
+    - rewrite (occ_in s ws2 Hnd2 Hin), (occ_notin _ _ (D2 Hin)). lia. }
+  assert (S1 : stats (writes nw ws1 ++ writes nw ws2) (ws1 ++ ws2) = spec_stats (map skd (ws1 ++ ws2)) nw 0).
+  { apply stats_uniform. intros s Hin _. apply Hcount, Hin. }
+  assert (S3 : std_pair (writes nw ws1 ++ writes nw ws2) (ws1 ++ ws2) = spec_std (map skd (ws1 ++ ws2)) nw).
+  { apply std_uniform. intros s Hin _. apply Hcount, Hin. }
+  rewrite S1, S3, (map_app skd), Hk1, Hk2, !sx_eqb_refl. reflexivity.
+Qed.
+
+(* ------------------------------------------------------------------ kind 3 *)
+Lemma reg_code r names name id : Inv r names ->
+  rres_code (fst (register r name id)) = spec_reg_cls names name
+  /\ keys (snd (register r name id)) =
+     if Z.eqb (spec_reg_cls names name) 0 then keys r ++ [ascii_lower name] else keys r.
+Proof.
+  intros HI. unfold register, spec_reg_cls. destruct (is_nil name) eqn:En; [split; reflexivity|].
+  apply is_nil_false in En. rewrite (normalize_spec name En).
+  destruct (valid_scheme name); cbn [negb register_with]; [|split; reflexivity].
+  rewrite (HI (ascii_lower name)). destruct (spec_factory names (ascii_lower name)); cbn [fst snd rres_code Z.eqb].
+  - split; reflexivity.
+  - split; [reflexivity|]. rewrite keys_app. reflexivity.
+Qed.
+
+Lemma wire_sreg_ops : forall ops r names id,
+  Inv r names -> ids_pos names -> id <> 0 -> forallb wf_op3 ops = true ->
+  spec_sreg_ops names (keys r) id ops (model_sreg_ops (fun r n _ id => register r n id) r id ops) = true.
+Proof.
+  induction ops as [|op t IH]; intros r names id HI Hpos Hid Hwf; cbn [model_sreg_ops spec_sreg_ops]; [reflexivity|].
+  cbn [forallb] in Hwf. apply andb_true_iff in Hwf as [Hop Ht]. unfold wf_op3 in Hop.
+  destruct (Z.eqb (sx_z (sx_nth op 0)) 0) eqn:Ek.
+  - set (name := sx_b (sx_nth op 1)). destruct (reg_code r names name id HI) as (Hc & Hk).
+    pose proof (Inv_step r names name id HI) as HI'.
+    destruct (register r name id) as [c r'] eqn:Er. cbn [fst snd] in *.
+    rewrite Hc, Hk, sx_eqb_refl. cbn [andb]. rewrite <- Hk. apply IH; try assumption; try lia.
+    unfold ids_pos in *. apply Forall_app. split; [exact Hpos|]. constructor; [exact Hid|constructor].
+  - cbn [orb] in Hop. rewrite (new_sink_spec r names _ HI Hpos Hop).
+    destruct (spec_path names (dec_purl (sx_nth op 1))) as [cs res]. rewrite sx_eqb_refl. cbn [andb].
+    apply IH; try assumption; lia.
+Qed.
+
+(* ------------------------------------------------------------------ kind 4 *)
+Lemma open_sinks_nil r tk et enc lv :
+  open_sinks r (mkB tk et enc lv [] []) = mkR (Some ([], [])) [] [] [].
+Proof. reflexivity. Qed.
+
+Lemma wire_ereg_ops : forall ops r encs id,
+  EInv r encs ->
+  spec_ereg_ops encs (keys r) id ops (model_ereg_ops r id ops) = true.
+Proof.
+  induction ops as [|op t IH]; intros r encs id HE; cbn [model_ereg_ops spec_ereg_ops]; [reflexivity|].
+  set (name := sx_b (sx_nth op 1)).
+  destruct (Z.eqb (sx_z (sx_nth op 0)) 0) eqn:Ek.
+  - pose proof (EInv_step r encs name (id, true) HE) as HE'.
+    unfold register_enc in *. destruct (is_nil name) eqn:En.
+    + cbn [fst snd rres_code Z.eqb] in *. rewrite sx_eqb_refl. cbn [andb]. apply IH, HE'.
+    + rewrite (HE name) in *. destruct (spec_enc encs name) as [v|].
+      * cbn [fst snd rres_code Z.eqb] in *. rewrite sx_eqb_refl. cbn [andb]. apply IH, HE'.
+      * cbn [fst snd rres_code Z.eqb] in *. rewrite keys_app. cbn [keys map fst app]. rewrite sx_eqb_refl. cbn [andb].
+        replace (keys r ++ [name]) with (keys (r ++ [(name, (id, true))])) by (rewrite keys_app; reflexivity).
+        apply IH, HE'.
+  - assert (X : sx_eqb
+        (SL [SZ 1; SZ (cls_code (b_cls (build r sreg0 (mkB false false name true [] []))));
+             SL (map of_nat (b_ctor (build r sreg0 (mkB false false name true [] []))));
+             enc_keys (keys r)])
+        (if is_nil name then SL [SZ 1; SZ 2; SL []; enc_keys (keys r)]
+         else match spec_enc encs name with
+              | None => SL [SZ 1; SZ 3; SL []; enc_keys (keys r)]
+              | Some (cid, true) => SL [SZ 1; SZ 0; SL (if Nat.leb 2 cid then [of_nat cid] else []); enc_keys (keys r)]
+              | Some (cid, false) => SL [SZ 1; SZ 4; SL [of_nat cid]; enc_keys (keys r)]
+              end) = true).
+    { unfold build, new_encoder. cbn [c_timekey c_enctime c_encoding c_level andb negb].
+      destruct (is_nil name); [apply sx_eqb_refl|]. rewrite (HE name).
+      destruct (spec_enc encs name) as [[cid ok]|]; [|apply sx_eqb_refl].
+      destruct ok; cbn [enc_cls negb]; [|apply sx_eqb_refl].
+      rewrite open_sinks_nil. cbn [r_ws r_sinks r_calls r_evs b_cls b_ctor cls_code].
+      destruct (Nat.leb 2 cid); apply sx_eqb_refl. }
+    rewrite X. cbn [andb]. apply IH, HE.
+Qed.
+
+Lemma sreg0_keys : keys sreg0 = [s_file].
+Proof. vm_compute. reflexivity. Qed.
+
+(* ------------------------------------------------------------------ all kinds *)
+Lemma spec_model i : wf i = true -> spec i (model i) = true.
+Proof.
+  intros Hwf. unfold wf, model, spec in *.
+  destruct (sx_z (sx_nth i 0)) as [|p|p]; [apply wire_open, Hwf| |discriminate].
+  destruct p as [p|p|].
+  - destruct p as [p|p|]; try discriminate.
+    unfold spec_sreg, model_sreg. cbn [sx_l]. rewrite <- sreg0_keys.
+    apply (wire_sreg_ops _ sreg0 [] 1 Inv0); [constructor|discriminate|exact Hwf].
+  - destruct p as [p|p|]; try discriminate.
+    + destruct p as [p|p|]; try discriminate.
+      unfold spec_ereg, model_ereg. cbn [sx_l]. apply (wire_ereg_ops _ ereg0 [] 2 EInv0).
+    + apply wire_redirect.
+  - apply andb_true_iff in Hwf as [W1 W2]. apply wire_build; assumption.
+Qed.
